@@ -191,8 +191,15 @@ def c03(m, h, i, s):
     if pre_tot != post_tot:
         m.bad(h, i, "not_conserved", f"total collateral {pre_tot} -> {post_tot}")
         return
+    # "the insurance fund" and "the fee pool" are the ones the engine's owner configured: the addresses are followed
+    # through the history, and only a successful UpdateConfig sent by the owner of the time moves them
+    auth = h.__dict__.setdefault("_c03_auth", {})
+    if not auth:
+        auth["ifund"], auth["feepool"] = I(s.pre, "e.ifund"), I(s.pre, "e.feepool")
     if s.kind == "eng":
-        allowed = {s.sender(), 2, I(s.pre, "e.ifund"), I(s.pre, "e.feepool")}
+        allowed = {s.sender(), 2, auth["ifund"], auth["feepool"]}
+        if s.verb() == "updcfg" and s.ok and s.sender() == I(s.pre, "e.owner"):
+            auth["ifund"], auth["feepool"] = I(s.obs, "e.ifund"), I(s.obs, "e.feepool")
         extra = [a for a in changed if a not in allowed]
         if extra:
             m.bad(h, i, "foreign_recipient", f"balances of {extra} changed in an engine transaction by {s.sender()}")
